@@ -143,6 +143,11 @@ Proof.
   exact (conj (rank_of_indices len idx Hs) (conj (select_of_indices len idx Hs Hb) (select_of_indices_none len idx Hs Hb))).
 Qed.
 
+(* the context size the model of WaveletTreePsi is written for is the one in the source
+   (re-extracted on every run into Gen/Const_Scrunch.v) *)
+Example context_size_is_two : CTX_SZ_is_two = true.
+Proof. reflexivity. Qed.
+
 (* ---- non-vacuity: concrete, non-trivial objects satisfy the hypotheses ---- *)
 Definition banana : list N := [66; 65; 78; 65; 78; 65]%N.
 
